@@ -749,6 +749,11 @@ func (r *yieldRewriter) rewriteBreakContinues(body *ast.BlockStmt) {
 				r.assert(n.Label == nil, n, "continue with label not supported")
 				return X.Return(r.CallContinue())
 			case token.GOTO:
+				// goto and its label inside a user func lit are none of our business,
+				// (generated thunks have no position)
+				if lit := funcLitStack.top(); lit != nil && lit.Type.Func.IsValid() {
+					return
+				}
 				r.assert(false, n, "goto not supported")
 			case token.FALLTHROUGH:
 				if inSwitch() {
